@@ -65,11 +65,13 @@ class Oracle:
 
     def _deref(self, body, text, env):
         b, c, k = body.get("register_multiplier"), body.get("constant_multiplier"), body.get("constant_offset")
-        if (b is None) != (c is None):
+        if b is None and c is not None:
             return False
         for a in self._deref_alts(body["main_reg"], "reg", env):
             mids = [""]
-            if b is not None:
+            if b is not None and c is None:
+                mids = [f"+{x}" for x in self._deref_alts(b, "reg", env)]
+            elif b is not None:
                 mids = [f"+{x}*{y}" for x in self._deref_alts(b, "reg", env) for y in self._deref_alts(c, "const", env)]
             tails = [""] if k is None else [f"+{x}" for x in self._deref_alts(k, "const", env)]
             for m in mids:
